@@ -836,7 +836,8 @@ var rReencodeStable = &Rule{
 							det = prm
 						}
 					}
-					regionOf(dr.Fn).each(func(in ssa.Instruction) {
+					dreg := regionOf(dr.Fn)
+					dreg.each(func(in ssa.Instruction) {
 						st, ok := in.(*ssa.Store)
 						if !ok {
 							return
@@ -848,7 +849,7 @@ var rReencodeStable = &Rule{
 						if call, ok := st.Val.(*ssa.Call); ok && sx.Callee(call) != nil && sx.Callee(call).Name() == "DecodeError" {
 							nested[sx.FieldOf(fa).Name()] = true
 						}
-						if det != nil && st.Val == ssa.Value(det) {
+						if det != nil && (st.Val == ssa.Value(det) || dreg.resolve(st.Val) == ssa.Value(det)) {
 							fromDetails[sx.FieldOf(fa).Name()] = true
 						}
 					})
